@@ -4,6 +4,7 @@ package flood
 import (
 	"fmt"
 	"log/slog"
+	"math"
 	"net"
 	"sync"
 	"time"
@@ -327,9 +328,18 @@ func (f *Flooder) HandleRouteAdvertise(
 		f.routeMgr.ProcessForwardRouteAdvertise(fromPeer, originAgent, sequence, forwardEntries, path, encPath)
 	}
 
-	// Flood to other peers (forward encrypted path as-is)
+	// Flood to other peers (forward encrypted path as-is). The forwarded copy carries
+	// the metric as seen from this agent, one hop further from the origin, so that
+	// every receiver ends up with a metric equal to its hop count.
+	fwdRoutes := make([]protocol.Route, len(routes))
+	for i, r := range routes {
+		fwdRoutes[i] = r
+		if r.Metric < math.MaxUint16 {
+			fwdRoutes[i].Metric = r.Metric + 1
+		}
+	}
 	newSeenBy := append(seenBy, f.localID)
-	f.floodAdvertisementEncrypted(fromPeer, originAgent, originDisplayName, sequence, routes, encPath, newSeenBy)
+	f.floodAdvertisementEncrypted(fromPeer, originAgent, originDisplayName, sequence, fwdRoutes, encPath, newSeenBy)
 
 	return true
 }
